@@ -36,10 +36,19 @@ class Unrenderable(Exception):
     pass
 
 
+_CTRL = re.compile(r"([\x00-\x08\x0b\x0c\x0e-\x1f\x7f])")
+
+
 def q(s):
-    if any(ord(ch) < 32 and ch not in "\n\t\r" for ch in s):
-        raise Unrenderable("control character")
-    return '"' + s.replace('"', '""') + '"'
+    """a Gallina string; control characters (NUL, form feed, vertical tab, DEL ...) are written as
+    String "ddd"%char so that the model scanner sees every character the Go scanner saw"""
+    parts = _CTRL.split(s)
+    acc = '"' + parts[-1].replace('"', '""') + '"'
+    for k in range(len(parts) - 2, 0, -2):
+        acc = '(String "%03d"%%char %s)' % (ord(parts[k]), acc)
+        if parts[k - 1]:
+            acc = '(String.append "%s" %s)' % (parts[k - 1].replace('"', '""'), acc)
+    return acc
 
 
 def b(x):
@@ -486,6 +495,11 @@ class C20(Property):
             inl = 2 if (self._on(F22) and rng.random() < 0.35) else 1
             if inl == 2:
                 src = c20gen.generate(rng, opts, odd=rng.choice([0.15, 0.3, 0.5]), pc=rng.choice([0.15, 0.3, 0.45]), inline=2)
+            elif rng.random() < 0.2:
+                # no comments at all: the formatted text is a function of the description there and is
+                # compared character by character with the text model (Text.v), in any source layout
+                opts["maxstmts"] = rng.choice([2, 4])
+                src = c20gen.generate(rng, opts, odd=rng.choice([0.0, 0.15, 0.4]), pc=0.0, inline=0)
             else:
                 src = c20gen.generate(rng, opts, inline=1)
             muts = []
@@ -512,7 +526,7 @@ class C20(Property):
         return res
 
     def coq_preamble(self):
-        return "Open Scope string_scope.\nOpen Scope list_scope.\n"
+        return "From Coq Require Import Ascii.\nOpen Scope string_scope.\nOpen Scope list_scope.\n"
 
     def coq_case(self, case, obs):
         self._valid[case["src"]] = (obs["pout"] == "ok")
@@ -730,6 +744,8 @@ class C20(Property):
             fs.append("comments_dropped_by_formatter")
         if c20_norm(obs["ast"]) != obs["ast"]:
             fs.append("empty_construct_removed")
+        if in_l0(obs) and len(obs["fmt1"]) <= SCAN_MAX // 2 and len(case["src"]) <= SCAN_MAX:
+            fs.append("formatted_text_compared_with_text_model")
         fs.append("mutants=%d" % len(obs["muts"]))
         fs += ["mutant_" + (m if m in ("ok", "err") else "crash") for m in obs["muts"]]
         fs += ["mutant_rejected_by_" + k for k in obs.get("mutk", []) if k not in ("ok", "crash")]
@@ -787,6 +803,38 @@ class C20(Property):
         if not obs["idem"]:
             return "formatting the formatted text changes it again"
         return "tokens of the formatted text differ from print(norm(AST))"
+
+
+def _has_struct(d):
+    k = d[0]
+    if k == "struct":
+        return True
+    if k == "array":
+        return _has_struct(d[2])
+    if k in ("slice", "ptr"):
+        return _has_struct(d[1])
+    if k == "map":
+        return _has_struct(d[1]) or _has_struct(d[2])
+    return False
+
+
+def in_l0(o):
+    """Python twin of Check.text_agrees' guard (Text.l0, no comments), for the evidence only"""
+    if o["pout"] != "ok" or o["cmts"] or o["fout"] != "ok":
+        return False
+    toks = o["toks"]
+    if any("\n" in t[1] or "\t" in t[1] for t in toks):
+        return False
+    for a, b2 in zip(toks, toks[1:]):
+        if a[0] == "IDENT" and a[1] == "info" and b2[0] == "(" and b2[2]:
+            return False
+    for st in o["ast"]:
+        es = [st[1]] if st[0] == "type" else st[1] if st[0] == "types" else []
+        for e in es:
+            d = e[2]
+            if d[0] != "struct" or any(_has_struct(m[1]) for m in d[1]):
+                return False
+    return True
 
 
 def c20_norm(a):
